@@ -4,7 +4,26 @@ use sierradb::IterDirection;
 use sierradb::StreamId;
 use sierradb_protocol::ExpectedVersion;
 
+fn fd_count() -> usize { std::fs::read_dir("/proc/self/fd").map(|d| d.count()).unwrap_or(0) }
+
+/// VH_DBG=fdleak: open / append / shutdown a database repeatedly and print the number of open descriptors
+fn fdleak(ctx: &mut Ctx) {
+    let rt = tokio::runtime::Builder::new_multi_thread().worker_threads(2).enable_all().build().unwrap();
+    let root = tempfile::tempdir_in("/dev/shm").unwrap();
+    rt.block_on(async {
+        let cfg = Cfg { nb: 1, segsize: 128 * 1024, compression: false, sync_ms: 5 };
+        let mut w = World::new(ctx, root.path(), cfg, "fd");
+        for i in 0..300 {
+            let db = open_db(&w.dir, &w.cfg).unwrap();
+            if i % 3 == 0 { let tx = w.gen_tx(ctx); let _ = db.append_events(w.to_transaction(&tx)).await; }
+            db.shutdown().await; drop(db);
+            if i % 50 == 0 { tokio::time::sleep(std::time::Duration::from_millis(200)).await; println!("after {i} open/shutdown cycles: {} fds, {} threads", fd_count(), std::fs::read_dir("/proc/self/task").map(|d| d.count()).unwrap_or(0)); }
+        }
+    });
+}
+
 pub fn run(ctx: &mut Ctx) {
+    if std::env::var("VH_DBG").as_deref() == Ok("fdleak") { fdleak(ctx); return; }
     let rt = tokio::runtime::Builder::new_multi_thread().worker_threads(2).enable_all().build().unwrap();
     let root = tempfile::tempdir().unwrap();
     rt.block_on(async {
